@@ -10,6 +10,7 @@ import (
 	"os"
 	"path/filepath"
 	"sort"
+	"strings"
 	"sync"
 	"testing"
 
@@ -103,12 +104,15 @@ func (s *Stats) Case(ntKey string, sample func() any, classes ...string) {
 		s.Classes[c]++
 	}
 	if ntKey != "" {
-		h := hashKey(ntKey)
-		if !s.nt[h] {
-			s.nt[h] = true
-			if !s.ntSampled && sample != nil {
-				s.ntSampled = true
-				s.Samples = append(s.Samples, sample())
+		// several identities may be reported at once, separated by 0x1f
+		for _, k := range strings.Split(ntKey, "\x1f") {
+			h := hashKey(k)
+			if !s.nt[h] {
+				s.nt[h] = true
+				if !s.ntSampled && sample != nil {
+					s.ntSampled = true
+					s.Samples = append(s.Samples, sample())
+				}
 			}
 		}
 	}
